@@ -323,12 +323,11 @@ impl<T: PartialOrd> Interval<T> {
             (Interval::UpperOneSided(x), Interval::LowerOneSided(y) | Interval::TwoSided(_, y)) => {
                 x <= y
             }
-            (Interval::LowerOneSided(x), Interval::UpperOneSided(y) | Interval::TwoSided(_, y)) => {
-                x <= y
+            (Interval::LowerOneSided(x), Interval::UpperOneSided(y) | Interval::TwoSided(y, _)) => {
+                y <= x
             }
-            (Interval::TwoSided(x, y), Interval::UpperOneSided(z) | Interval::LowerOneSided(z)) => {
-                x <= z && z <= y
-            }
+            (Interval::TwoSided(_, y), Interval::UpperOneSided(z)) => z <= y,
+            (Interval::TwoSided(x, _), Interval::LowerOneSided(z)) => x <= z,
             (Interval::TwoSided(x, y), Interval::TwoSided(a, b)) => x <= b && a <= y,
         }
     }
